@@ -258,8 +258,9 @@ def check_hypergraph(graph, names, cons, rep):
         bad = check_constraints("hypergraph", by[v], v, contains, scope, rep)
         if not bad:
             # hyper-edges held by the node: one per constraint, joining exactly its scope
-            got = sorted((getattr(l, "name", None), tuple(sorted(l.nodes))) for l in by[v].links)
-            exp = sorted((c, scope[c]) for c in contains[v])
+            # (the hyper-edge *names* are not compared: the property speaks about constraints and neighbourhood only)
+            got = sorted((None, tuple(sorted(l.nodes))) for l in by[v].links)
+            exp = sorted((None, scope[c]) for c in contains[v])
             if got != exp:
                 bad = True
                 missing, extra = msdiff(got, exp)
@@ -270,8 +271,8 @@ def check_hypergraph(graph, names, cons, rep):
             )
         clean = clean and not bad
     if clean:
-        got = sorted((getattr(l, "name", None), tuple(sorted(l.nodes))) for l in graph.links)
-        exp = sorted(scope.items())
+        got = sorted((None, tuple(sorted(l.nodes))) for l in graph.links)
+        exp = sorted((None, sc) for sc in scope.values())
         if got != exp:
             rep("hypergraph|graph-links", f"graph.links is {got}, expected one hyper-edge per constraint {exp}")
     return tuple((v, tuple(sorted(by[v].neighbors)), tuple(sorted(c.name for c in by[v].constraints))) for v in sorted(by))
@@ -353,9 +354,7 @@ def check_ordered(graph, names, cons, rep):
     contains, _, scope = reference(names, cons)
     isolated = {v for v in names if not contains[v]}
     by = check_nodes("ordered", graph, list(names), isolated, rep)
-    for v in names:
-        if v in by:
-            check_constraints("ordered", by[v], v, contains, scope, rep)
+    # (node.constraints of the ordered graph is not compared: the property only states the lexical chain)
     if set(by) != set(names):
         return ()
     order = sorted(names)  # lexical order of the names
